@@ -19,11 +19,11 @@ CRATE = os.path.join(ROOT, 'replay')
 BIN = os.path.join(CRATE, 'target', 'release', 'verif-replay')
 MODES = {
     'C03': ['cek', 'corpus'],
-    'C04': ['builtins'],
+    'C04': ['builtins', 'datacodec'],
     'C05': ['budget', 'corpus'],
     'C10': ['nopanic', 'allbuiltins', 'builtins_np'],
-    'C08': ['flat'],
-    'C11': ['debruijn'],
+    'C08': ['flat', 'datacodec'],
+    'C11': ['debruijn', 'interner'],
     'C16': ['shrinker'],
 }
 
